@@ -338,8 +338,7 @@ theorem Ctx.dispatch {code : Code} {A : List FnAnn} {s : VMState} {f : Frame}
       exact hcs.2.symm
     subst hbelow
     have hle := cx.hh
-    refine cx.intra (s' := push1 { s' with calls := ⟨f.fn, l⟩ :: below,
-      stack := s'.stack.drop (s'.stack.length - (B.b + H)), mp := B.mb + (o : Int), st := st' } ob) (ip' := l)
+    refine cx.intra (s' := push1 { s' with calls := ⟨f.fn, l⟩ :: below, stack := s'.stack.drop (s'.stack.length - (B.b + H)), mp := B.mb + (o : Int), st := st' } ob) (ip' := l)
       rfl hh.1 ?_ ?_ ?_ ?_
     · simp only [push1_stack, List.length_cons, List.length_drop]
       omega
